@@ -28,6 +28,7 @@ structure IndCase where
   nVals : Nat := 0              -- values actually compared (not exempt)
   nSigs : Nat := 0              -- signals actually compared
   nSteps : Nat := 0
+  nExV : Nat := 0               -- steps with at least one value slot legitimately exempt (comparison on, nothing to compare)
 
 inductive CaseState where
   | idle
@@ -357,7 +358,8 @@ def stepIndicator (d : Drv) (line : String) : Drv × Option String :=
                     | .bad m => (some s!"s{p.2}:signal {m}", acc.2)) (none, 0)
             let nv := if i.cmpVals && !so.borderline then so.vals.length - vex else 0
             let ns := if i.cmpSigs && finite && i.sigHold == 0 && !so.borderline then so.sigs.length - sex else 0
-            let i := { i with nVals := i.nVals + nv, nSigs := i.nSigs + ns, nSteps := i.nSteps + 1 }
+            let exv := if i.cmpVals && !so.borderline && vex > 0 then 1 else 0
+            let i := { i with nVals := i.nVals + nv, nSigs := i.nSigs + ns, nSteps := i.nSteps + 1, nExV := i.nExV + exv }
             let d := { d with exempt := d.exempt + vex + sex, specs := d.specs + nv, lsteps := d.lsteps + ns }
             -- a borderline model decision (SAR flip within rounding) ends the value/signal comparison of the case
             -- a non-finite value enters the signal state (crossing deltas; for TrendStrengthIndex the 4-element reversal window)
@@ -454,7 +456,7 @@ def step (d : Drv) (line : String) : Drv × Option String :=
     -- per-case coverage of the indicator comparisons (aggregated into the evidence: a comparison that is silently
     -- switched off shows as a zero count)
     let msg := match d.cs with
-      | .ind i => if i.st.isSome then some s!"ISTAT name={i.name} steps={i.nSteps} vals={i.nVals} sigs={i.nSigs}" else none
+      | .ind i => if i.st.isSome then some s!"ISTAT name={i.name} steps={i.nSteps} vals={i.nVals} sigs={i.nSigs} exv={i.nExV}" else none
       | _ => none
     ({ d with cs := .idle }, msg)
   | _ =>
